@@ -50,7 +50,7 @@ MANIFEST_ENTRY = {
             "values) parse(marshal m) = m (parse_marshal); all 25 schemas are well-formed (schemas_wf); type "
             "codes, MESSAGE_TYPE_MAP dispatch and element counts agree with the regenerated tables for all 25 (schema_codes, "
             "type_dispatch, schema_lengths); N messages batched with 0x18 / u32 length prefixes come back as the same N in order for "
-            "every N (unbatch_batch_json, unbatch_batch_bin); BINARY is false exactly for JSON (binary_flag); a WELCOME with an "
+            "every N >= 1 with JSON (an empty JSON batch is a format error in the code: unbatch_batch_json_empty; no serialized message contains 0x18 - a hypothesis, JSON escapes control characters) and every N >= 0 with the binary serializers (unbatch_batch_json, unbatch_batch_bin); BINARY is false exactly for JSON (binary_flag); a WELCOME with an "
             "authmethod but no authrole round-trips (welcome_authmethod_without_authrole: authmethod is written under its own guard "
             "since the repair of Welcome.marshal); end-to-end relative to "
             "the serializer library's decode(encode v) = v law. Tied to the code by round-tripping ~4k (quick) / ~25k (thorough) "
